@@ -388,6 +388,10 @@ pub struct Module {
     /// (non-exportable roots such as `i32` or `Vec<User>` for the fault histories)
     #[serde(default)]
     pub extra_roots: Vec<String>,
+    /// control rendering: the same items without `derive(TS)`, `#[ts(..)]` and registration -
+    /// decides whether a compile error is the derive's or the generated program's
+    #[serde(default)]
+    pub without_ts_derive: bool,
 }
 
 impl Module {
